@@ -1,6 +1,7 @@
 package main
 
 import (
+	"fmt"
 	"go/token"
 	"go/types"
 	"strings"
@@ -58,6 +59,38 @@ func checkC16(c *Ctx) {
 		c.reachCountUnder(p, "C16.dep", "partially oblivious mode with an empty info: input, info and element are absorbed with their lengths, then the label (7 writes)", fh, map[string]lat{"info": latSliceLen(0)}, modeIs(2), "oprf.mustWrite", 7)
 		c.reachCountUnder(p, "C16.dep", "verifiable mode with a non-empty info: the info is not absorbed (5 writes)", fh, map[string]lat{"info": latNonEmpty}, modeIs(1), "oprf.mustWrite", 5)
 		c.reachCountUnder(p, "C16.dep", "base mode with a non-empty info: the info is not absorbed (5 writes)", fh, map[string]lat{"info": latNonEmpty}, modeIs(0), "oprf.mustWrite", 5)
+	}
+	// CopyBlinds hands out copies: the scalars inside FinalizeData are the ones Finalize inverts
+	if f := p.Func("oprf", "FinalizeData", "CopyBlinds"); f == nil {
+		c.undecided("C16.dep", "oprf.FinalizeData.CopyBlinds", "anchor does not resolve", "")
+	} else {
+		var bad []string
+		n := 0
+		for _, b := range f.Blocks {
+			for _, in := range b.Instrs {
+				st, ok := in.(*ssa.Store)
+				if !ok {
+					continue
+				}
+				if _, ok := st.Addr.(*ssa.IndexAddr); !ok {
+					continue
+				}
+				n++
+				if d := descVal(st.Val); !strings.HasPrefix(d, "call:invoke (group.Scalar).Copy") {
+					bad = append(bad, p.pos(st.Pos())+": element receives "+d)
+				}
+			}
+		}
+		// a bulk copy of the slice (append / copy) shares the scalars as well
+		for _, cs := range p.callSites(f, "builtin.append", "builtin.copy") {
+			bad = append(bad, p.pos(cs.Pos())+": the slice of blinds is copied element-wise by "+p.staticCalleeName(cs.Common())+" (the scalars are shared)")
+		}
+		construct := fname(f) + ": every element handed out is a Copy() of the stored blind"
+		if len(bad) > 0 || n == 0 {
+			c.bad("C16.dep", construct, strings.Join(bad, "; ")+fmt.Sprintf(" (%d element stores)", n), p.fnPos(f))
+		} else {
+			c.ok("C16.dep", construct, fmt.Sprintf("%d element store(s), each of a Copy() result", n), p.fnPos(f))
+		}
 	}
 	// a zero blind cannot be inverted at finalisation, and the element it produces is the identity
 	c.guardEachSite(p, "C16.verifyguard", "a zero blind is refused", p.Func("oprf", "client", "blind"), -1, latTrue, "invoke (group.Scalar).IsZero")
